@@ -140,6 +140,8 @@ def gen_cases(rng, tier):
         cs.append(Case(S.gen_history(rng, special=True, asa=0), "nonplain-sends"))
     for _ in range(40 * mult):
         cs.append(Case(S.gen_history(rng, asa=1), "always-seqnum-assign"))
+    for _ in range(60 * mult):
+        cs.append(Case(S.gen_acceptor_logon(rng), "acceptor-logon-flags"))
     return cs
 
 
